@@ -53,7 +53,7 @@ def run(writer, cfg, ops, root, chdir, workdir, extra_env=None, timeout=120):
     return rc, rfharness.parse_log(lp), err
 
 
-def run_paused(writer, cfg, ops, root, chdir, workdir, on_point, timeout=600):
+def run_paused(writer, cfg, ops, root, chdir, workdir, on_point, timeout=600, extra_env=None):
     """Run with the writer blocked before every counted operation.
 
     on_point(k, name, what) is called while the writer is blocked (the tree is exactly what a kill at that
@@ -68,7 +68,7 @@ def run_paused(writer, cfg, ops, root, chdir, workdir, on_point, timeout=600):
         if os.path.exists(f):
             os.unlink(f)
         os.mkfifo(f)
-    p = subprocess.Popen(cmd, env=_env(ovl, root, lp, {"FSX_FIFO_OUT": fo, "FSX_FIFO_IN": fi}),
+    p = subprocess.Popen(cmd, env=_env(ovl, root, lp, dict(extra_env or {}, FSX_FIFO_OUT=fo, FSX_FIFO_IN=fi)),
                          stdout=subprocess.DEVNULL, stderr=subprocess.DEVNULL)
     npoints = 0
     try:
